@@ -49,6 +49,7 @@ def run(ck: Checker, prog: Program, tier: str):
     ck.guard(_minishark, ck, prog)
     ck.guard(_peer, ck, prog)
     ck.guard(_common, ck, prog)
+    ck.guard(_argument_purity, ck, prog)
     ck.guard(_check_npts_rule, ck, prog)
     ck.guard(_read_single, ck, prog)
     ck.guard(_read, ck, prog)
@@ -631,6 +632,68 @@ def _peer(ck: Checker, prog: Program):
         ck.violation("C07.R1", q, "unknown codes raise", f"only {n_raise} refusals remain in the PEER reader (unrecognised component codes must raise)", loc=f.loc())
 
 
+# one named exemption of the argument-purity rule, with its reason (an observation, not a finding: no reader after the SAC
+# reader interprets the key, and the SAC reader sets it before each of its own attempts)
+PRIVATE_OPTION_KEYS = {
+    ("data_wrangler._read_sac", "obspy_read_kwargs", "byteorder"):
+        "`byteorder` is interpreted by obspy's SAC plug-in only and is (re)set by _read_sac before every attempt; the readers tried "
+        "afterwards (GCF, PEER) and a later miniSEED read ignore it",
+}
+
+
+def _written_keys(text: str):
+    """Literal keys a statement writes into a dict: d['k'] = v, d.setdefault('k', v), d.update(k=v) / d.update({'k': v})."""
+    try:
+        st = ast.parse(text).body[0]
+    except SyntaxError:
+        return set()
+    keys = set()
+    if isinstance(st, (ast.Assign, ast.AugAssign)):
+        for t in (st.targets if isinstance(st, ast.Assign) else [st.target]):
+            if isinstance(t, ast.Subscript) and isinstance(t.slice, ast.Constant) and isinstance(t.slice.value, str):
+                keys.add(t.slice.value)
+            else:
+                return set()
+    elif isinstance(st, ast.Expr) and isinstance(st.value, ast.Call) and isinstance(st.value.func, ast.Attribute):
+        c = st.value
+        if c.func.attr == "setdefault" and c.args and isinstance(c.args[0], ast.Constant):
+            keys.add(c.args[0].value)
+        elif c.func.attr == "update" and not c.args and c.keywords and all(k.arg for k in c.keywords):
+            keys |= {k.arg for k in c.keywords}
+        elif c.func.attr == "update" and len(c.args) == 1 and isinstance(c.args[0], ast.Dict) and all(isinstance(k, ast.Constant) for k in c.args[0].keys):
+            keys |= {k.value for k in c.args[0].keys}
+        else:
+            return set()
+    return keys
+
+
+def _argument_purity(ck: Checker, prog: Program):
+    """read_single hands the same fnames / obspy_read_kwargs / degrees_from_north objects to one reader after the other:
+    a reader that writes into one of them changes what the next reader (and the caller) sees."""
+    from .common import engine, group_effects, describe_effect, chain_text
+    eng = engine(prog)
+    n = 0
+    for name in READERS + ["read_single", "read"]:
+        f = prog.func(f"data_wrangler.{name}")
+        s = eng.summary(f)
+        effs = [e for e in s.effects if e.origin[0] == "P"]
+        n += 1
+        if not effs:
+            ck.ok("C07.R4", f.qualname, "arguments are not modified", detail="no store / in-place call on a parameter, directly or through callees")
+        for (func, text), es in group_effects(prog, effs).items():
+            pname = f.params[es[0].origin[1]] if es[0].origin[1] < len(f.params) else "?"
+            keys = _written_keys(text)
+            why = None
+            if keys and all((func, pname, k) in PRIVATE_OPTION_KEYS for k in keys):
+                why = PRIVATE_OPTION_KEYS[(func, pname, sorted(keys)[0])]
+            if why is not None:
+                ck.ok("C07.R4", func, f"{pname}[{', '.join(sorted(keys))}] is written", nontrivial=False, detail="exempt: " + why)
+                continue
+            ck.violation("C07.R4", func, text, f"{f.qualname} modifies its argument `{pname}`: {describe_effect(es[0])} - the next reader tried by read_single "
+                         f"(and the caller) see the changed object", loc=es[0].chain[0].loc, path=chain_text(es[0]))
+    ck.floor("C07.R4", n, 8, "readers checked for argument purity")
+
+
 def _common(ck: Checker, prog: Program):
     reg = prog.registry("data_wrangler", "READ_FUNCTION_DICT")
     if [unparse(v) for v in reg.values()] == READERS and list(reg) == ["mseed", "saf", "minishark", "sac", "gcf", "peer"]:
@@ -836,6 +899,50 @@ def _groups(pattern: str) -> int:
     return rp.parse(pattern).state.groups - 1
 
 
+# Witness lines per pattern, written from the file-format descriptions (SESAME ASCII, MiniShark, PEER NGA, hvsrpy / Geopsy output),
+# with the fields a reader must obtain from them.  Interpreted on the pattern's syntax tree (hvsa/rxmatch.py).
+REGEX_WITNESSES = {
+    "saf_row_exec": ("CH0_ID = V\n0 1 2\n-12 5 -7\r\n3 4 5\n", [("0", "1", "2"), ("-12", "5", "-7"), ("3", "4", "5")]),
+    "saf_npts_exec": ("NDAT = 1200\nSAMP_FREQ = 100\n", [("1200",)]),
+    "saf_fs_exec": ("NDAT = 1200\nSAMP_FREQ = 100\n", [("100",)]),
+    "saf_v_ch_exec": ("CH0_ID = V\nCH1_ID = N\nCH2_ID = E\n", [("0",)]),
+    "saf_n_ch_exec": ("CH0_ID = V\nCH1_ID = N\nCH2_ID = E\n", [("1",)]),
+    "saf_e_ch_exec": ("CH0_ID = V\nCH1_ID = N\nCH2_ID = E\n", [("2",)]),
+    "saf_north_rot_exec": ("NORTH_ROT = 20\n", [("20",)]),
+    "mshark_npts_exec": ("#Sample number:\t1500\n", [("1500",)]),
+    "mshark_fs_exec": ("#Sample rate (sps):\t250\n", [("250",)]),
+    "mshark_gain_exec": ("#Gain:\t64\n#Conversion factor:\t32768\n", [("64",)]),
+    "mshark_conversion_exec": ("#Gain:\t64\n#Conversion factor:\t32768\n", [("32768",)]),
+    "mshark_row_exec": ("#Gain:\t64\n12\t-3\t45\r\n-1\t0\t7\n", [("12", "-3", "45"), ("-1", "0", "7")]),
+    "peer_direction_exec": ("RSN, 1/1/2000, STATION, UP\nX, 090\nY, HNZ\n", [("UP",), ("090",), ("HNZ",)]),
+    "peer_npts_exec": ("NPTS=  4000, DT=   .0050 SEC\n", [("4000",)]),
+    "peer_dt_exec": ("NPTS=  4000, DT=   .0050 SEC\nNPTS= 1, DT= 0.0100 SEC", [(".0050",), ("0.0100",)]),
+    "peer_sample_exec": ("  -.1234567E-02   0.9876543E+01 -1.5e-3\n  .5E+00", [("-.1234567E-02",), ("0.9876543E+01",), ("-1.5e-3",), (".5E+00",)]),
+    "geopsy_line_exec": ("1.5\t2.25\t1.0\t3.5\n10.0\t1.0\t2.0\t4.0\r\n", [("1.5", "2.25", "1.0"), ("10.0", "1.0", "2.0")]),
+}
+
+
+def _regex_witnesses(ck: Checker, prog: Program, pats):
+    from .. import rxmatch
+    mod = prog.module("regex")
+    n = 0
+    for name, (text, want) in REGEX_WITNESSES.items():
+        if name not in pats:
+            raise AnalysisError(f"regex.{name}: pattern not found")
+        sym = mod.symbols.get(name)
+        ml = any(isinstance(x, ast.Attribute) and x.attr in ("MULTILINE", "M") for k in sym[1].keywords for x in ast.walk(k.value)) or \
+            any(isinstance(x, ast.Attribute) and x.attr in ("MULTILINE", "M") for a in sym[1].args[1:] for x in ast.walk(a))
+        got = rxmatch.finditer(rxmatch.parse(pats[name], ml), text, ml)
+        n += 1
+        if got == want:
+            ck.ok("C07.R6", "regex", f"{name}: fields of the witness lines", detail=f"{len(want)} match(es): {want[0]} ...")
+        else:
+            ck.violation("C07.R6", "regex", f"{name}: fields of the witness lines",
+                         f"pattern {name} = {pats[name]!r} reads {got} from the witness text {text!r}; the format requires {want} "
+                         f"(a field is lost, truncated or split)", loc="hvsrpy/regex.py")
+    ck.floor("C07.R6", n, 17, "patterns interpreted on witness lines")
+
+
 def _regex(ck: Checker, prog: Program):
     mod = prog.module("regex")
     pats = {}
@@ -885,6 +992,7 @@ def _regex(ck: Checker, prog: Program):
                              f"pattern {pat_name} = {pats[pat_name]!r} has {ng} capturing group(s) but this consumer needs {'exactly ' if exact else 'at least '}{need}",
                              loc=f.loc(c))
     ck.floor("C07.R6", consumers, 18, "groups() consumer sites")
+    _regex_witnesses(ck, prog, pats)
     # role letters inside the SAF / row patterns
     for name, want in (("saf_row_exec", 3), ("mshark_row_exec", 3), ("peer_sample_exec", 1), ("geopsy_line_exec", 3)):
         if name in pats:
